@@ -502,6 +502,70 @@ def check_cachekey(ck, prog):
     ck.floor("C10-CACHEKEY", 1)
 
 
+# (function, file, producer call, releasing/transferring calls, which exits must be covered, why)
+LOCALOWN = [
+    ("stream_decode", "stream_decoder.c", "lzma_block_header_decode", ("lzma_filters_free",), "all",
+     "the filter options decoded from the Block Header live in a stack array of stream_decode(): they must be freed "
+     "before any return"),
+    ("lzma_block_header_decode", "block_header_decoder.c", "lzma_filter_flags_decode", ("lzma_filters_free",), "error",
+     "filter options already decoded into block->filters must be freed when the header turns out to be invalid"),
+    ("stream_encoder_update", "stream_encoder.c", "lzma_filters_copy", ("lzma_filters_free", "memcpy"), "all",
+     "the temporary copy of the new chain is either freed or moved into coder->filters"),
+    ("stream_encoder_mt_update", "stream_encoder_mt.c", "lzma_filters_copy", ("lzma_filters_free", "memcpy"), "all",
+     "the temporary copy of the new chain is either freed or moved into coder->filters"),
+]
+
+
+def check_localown(ck, prog):
+    from sa import guard
+    ck.rule("C10-LOCALOWN", "allocations handed to a function-local (or caller-owned, on error) filter array are released "
+                            "or transferred on every path from the producing call to a return")
+    cg = common.callgraph(prog)
+    rs = common.retsets(prog)
+    for (fn, file, producer, releasers, which, why) in LOCALOWN:
+        f = prog.fn(fn, file)
+        ck.saw_function(f)
+        m = PlainGraph(prog, f, cg, rs)
+        g = m.g
+        gs, sites = guard.find_res(f, producer, ("LZMA_OK",), prog)
+        if not gs:
+            raise AnalysisBroken("%s: result test of %s() not found" % (fn, producer))
+        cut_blocks = set()
+        for b, i, e in f.iter_elems():
+            if any(c.get("fn") in releasers for c in ex.calls(e, into_refs=False)):
+                cut_blocks.add(b.id)
+        if not cut_blocks:
+            ck.ob("C10-LOCALOWN", fn, False, common.where(f), "%s(): no call to %s at all (%s)" % (fn, "/".join(releasers), why),
+                  key="LOCALOWN:%s" % fn)
+            continue
+        ok_val = m.rets.get("LZMA_OK", 0)
+        src = []
+        for x in gs:
+            for node in [nd for nd in g.nodes if nd[0] == x.bid]:
+                for (dst, label) in g.succ.get(node, ()):
+                    if label == x.pass_label:
+                        src.append(dst)
+
+        def dstp(node):
+            if node[0] != f.exit:
+                return None
+            if which == "all":
+                return "return"
+            rv = g.get(node[1], "$ret")
+            if rv is None or any(v != ok_val for v in rv):
+                return "error return"
+            return None
+        path, hit = guard.cut_reach(g, src, set(), dstp, cut_blocks=cut_blocks)
+        ck.ob("C10-LOCALOWN", fn, path is None, common.where(f, gs[0].line),
+              "%s(): every %s after a successful %s() passes %s (%s)" % (
+                  fn, "return" if which == "all" else "error return", producer, "/".join(releasers), why)
+              if path is None else
+              "%s(): %s is reachable after a successful %s() without %s: path %s -- the options allocated by %s() are "
+              "leaked (%s)" % (fn, hit, producer, "/".join(releasers), m.describe_path(path), producer, why),
+              key="LOCALOWN:%s" % fn)
+    ck.floor("C10-LOCALOWN", 4)
+
+
 def run(ck):
     ck.explanation = (
         "Ownership rules decided on the AST/CFG of all 79 liblzma units: owned members of each coder record "
@@ -519,3 +583,4 @@ def run(ck):
     check_strong(ck, prog)
     check_initord(ck, prog)
     check_cachekey(ck, prog)
+    check_localown(ck, prog)
